@@ -57,7 +57,7 @@ def link_tree(rng):
 class FollowLinks(Suite):
     name = "followlinks"
     rule = ("trees with symlinks (relative, absolute, '..' beyond the root, chains, cycles, self loops, links in intermediate components, dangling) over a small "
-            "name universe x request lists (existing paths, paths through links, wildcards in the last and in middle components, non-existent, '.', '/', "
+            "name universe x request lists (existing paths, paths through links, wildcards in the last and in middle components and below symlink components, non-existent, '.', '/', "
             "'../x'); FollowLinks over synthetic and on-disk views vs the transcribed Lean resolver; oracle: the chroot-style reference resolver; "
             "non-trivial = tree with >= 1 symlink and >= 1 request, distinct")
 
@@ -79,6 +79,12 @@ class FollowLinks(Suite):
                     i = rng.randrange(len(cs))
                     cs[i] = rng.choice([b"*", cs[i][:1] + b"*", b"?" * len(cs[i]), b"[a-c]*"])
                     q = b"/".join(cs)
+                elif r < 0.7 and rng.random() < 0.6 and paths:
+                    # a wildcard BELOW a symlink component (the link is crossed first, the pattern is expanded behind it)
+                    links = [bytes.fromhex(e["p"]) for e in tree if e["t"] == "symlink"]
+                    q = rng.choice(links or paths) + b"/" + rng.choice([b"*", b"a*", b"?", b"*.txt", b"[a-l]*"])
+                    if rng.random() < 0.3:
+                        q += b"/" + rng.choice(NAMES)
                 elif r < 0.7:
                     q = rng.choice([b".", b"/", b"", b"nonexistent", b"a/../b", b"/a", b"./a", b"a/"])
                 elif r < 0.75:
@@ -138,10 +144,11 @@ class FollowLinks(Suite):
 
     matchers = {
         # F19: the violation disappears when every request is resolved with a fresh memo (model variant), implementation = model
-        "F19": lambda op, impl, model: impl.get("out") == model.get("m") and model.get("spec_sep") is True,
+        # (or when the memo is keyed by (link, remainder): the same link crossed twice by ONE request)
+        "F19": lambda op, impl, model: impl.get("out") == model.get("m") and (model.get("spec_sep") is True or model.get("spec_keyed") is True),
         # F12: a request has a wildcard in a middle component, implementation = model, and the requests without one are fine
         "F12": lambda op, impl, model: model.get("midwild") and impl.get("out") == model.get("m") and
-        (model.get("spec_nomid") is True or model.get("spec_sep_nomid") is True),
+        (model.get("spec_nomid") is True or model.get("spec_sep_nomid") is True or model.get("spec_keyed_nomid") is True),
     }
 
 
